@@ -1288,6 +1288,22 @@ def builtin(I, o, args, kwargs, callnode):
     r = I.vc.call_real(I, o, args, kwargs, callnode)
     if r is not None:
         return r
+    if (getattr(I.contract, 'ghost', None) or {}).get('open_world') and callable(o) and I.spec_mode == 0:
+        # a trace contract lists every external call it expects; any other library function is an
+        # event too (it may do anything: raise, return anything), so that a trace equation fails
+        # instead of the proof being abandoned
+        from .interp import Raised
+        nm = '%s.%s' % (getattr(o, '__module__', '?'), getattr(o, '__qualname__', getattr(o, '__name__', '?')))
+        tr = I.ghost.setdefault('ext_trace', [])
+        out = I.path.choose(2, 'ext:%s' % nm)
+        rec = {'name': nm, 'args': list(args), 'kwargs': dict(kwargs), 'raised': bool(out)}
+        tr.append(rec)
+        if out:
+            from .k3 import new_sym_exc
+            rec['exc'] = new_sym_exc(I, fresh_name('exc_' + nm.replace('.', '_')))
+            raise Raised(rec['exc'])
+        rec['result'] = fresh(Ty('any'), 'ext_' + nm.replace('.', '_'))
+        return rec['result']
     raise Unsupported('call of builtin/real object %r' % (o,))
 
 
